@@ -63,6 +63,7 @@ def run(script):
     V = {}
     trace = []
     idmap = {}
+    LASTREQ = {}
 
     def mk_metric(m):
         if m is None:
@@ -263,6 +264,7 @@ def run(script):
                                 req.add(scene, V[d["box"]], d["custom"])
                             else:
                                 req.add(scene, V[d["box"]])
+                    LASTREQ[a[0]] = req
                     res = t.predict(req)
                 else:
                     cov("VisualSortPredictionBatchRequest.new"); cov("VisualSortPredictionBatchRequest.add"); cov("BatchVisualSort.predict"); cov("VisualSortObservation.new")
@@ -289,6 +291,19 @@ def run(script):
                 r = {"batch_size": n, "results": got, "ready_after": res.ready()}
                 if kind == "bvsort":
                     r["request_prediction"] = probe
+            elif op == "predict_batch_again":
+                kind, t = V[a[0]]
+                res = t.predict(LASTREQ[a[0]])
+                n = res.batch_size()
+                got = []
+                for _ in range(n):
+                    scene, tracks = res.get()
+                    got.append([scene, [track(x) for x in tracks]])
+                got.sort(key=lambda x: x[0])
+                for scene, tracks in got:
+                    for tr in tracks:
+                        tr["id"] = canon(idmap, a[0], tr["id"])
+                r = {"batch_size": n, "results": got, "ready_after": res.ready()}
             elif op == "skip":
                 kind, t = V[a[0]]
                 if a[1] is None:
